@@ -22,7 +22,9 @@ LEAN_SETTING_NOTE = (
 
 def specs_hermitian(tier):
     return (specs_evals(tier, algs=("main",)) + specs_wiring(tier, algs=("main",)) + specs_product(tier) + specs_index(tier)
-            + specs_solver(tier) + specs_masks(tier))
+            + specs_solver(tier) + specs_masks(tier)
+            # the closures that block_diagonalize hands to the algorithm (masks, solvers, converters) keep no state between calls: the units above speak about ONE call each
+            + [("contracts.frame", "unit_frame", {})])
 
 
 # vacuity guard: the class axioms and the generated equation structures are jointly satisfiable (degenerate witness A = Q)
